@@ -674,3 +674,56 @@ func ruleCC14(pkgs ...string) Rule {
 			}
 		}}
 }
+
+// ---------------------------------------------------------------------------
+// CC15: every lexer owns its channels.
+
+func ruleCC15(pkgs ...string) Rule {
+	return Rule{ID: "CC15", Kind: "must", Floor: 2,
+		Doc: "each lexer value is constructed with channels of its own: in every composite literal of the lexer type a channel field is given a fresh make(chan …), never the channel of another lexer. The error recorder closes `cancel` under the mutex of the lexer it belongs to; a nested lexer that shares its creator's channel can close it a second time under a different mutex (panic), and stops or not depending on what the outer parser happens to have reported",
+		Run: func(c *Ctx, rr *core.RuleResult) {
+			for _, pkg := range pkgs {
+				pk := c.P.Pkgs[pkg]
+				if pk == nil {
+					continue
+				}
+				for _, f := range c.funcsOfPkg(pkg, false) {
+					info := f.Info()
+					f.OwnNodes(func(n ast.Node) bool {
+						cl, ok := n.(*ast.CompositeLit)
+						if !ok {
+							return true
+						}
+						t := info.TypeOf(cl)
+						if t == nil || namedTypeName(t) != pkg+".lexer" {
+							return true
+						}
+						for _, el := range cl.Elts {
+							kv, ok := el.(*ast.KeyValueExpr)
+							if !ok {
+								continue
+							}
+							id, ok := kv.Key.(*ast.Ident)
+							if !ok {
+								continue
+							}
+							v, ok := info.Uses[id].(*types.Var)
+							if !ok {
+								continue
+							}
+							if _, isChan := v.Type().Underlying().(*types.Chan); !isChan {
+								continue
+							}
+							key := fmt.Sprintf("%s.lexer.%s|constructed in %s", pkg, v.Name(), f.Root().Name)
+							if call, ok := ast.Unparen(kv.Value).(*ast.CallExpr); ok && isBuiltinCall(info, call, "make") {
+								rr.OK(f, key, kv.Pos(), "fresh", "a channel of its own")
+							} else {
+								rr.Bad(f, key, kv.Pos(), fmt.Sprintf("the lexer constructed here does not get a channel of its own for %s (%s): it shares it with another lexer, whose error recorder closes it under a different mutex", v.Name(), exprStr(kv.Value)))
+							}
+						}
+						return true
+					})
+				}
+			}
+		}}
+}
